@@ -79,6 +79,19 @@ def _run(shard, rec, ss, enum):
         if len(held) > 3:
             del held[0 if n % 2 else 1]
         check(fn, cls, s, draws, rec)
+        # the same draws once more (two connections may well be dealt the same numbers one after the other): the
+        # second start must be just as good as the first
+        enum.begin()
+        try:
+            s2 = cls.generate()
+            check(fn, cls, s2, draws, rec)
+            if (s2.value, getattr(s2, "seq1", None), getattr(s2, "seq2", None)) != (s.value, getattr(s, "seq1", None), getattr(s, "seq2", None)):
+                rec.violation("reconstruct", "%s.generate() dealt the draws %r twice in a row gives %r, then %r" % (cls.__name__, draws, s.value, s2.value), {"fn": fn, "draws": draws})
+        except hr._Exhausted:
+            pass
+        except Exception as ex:
+            rec.violation("generate-raises", "%s.generate() raised %r when dealt the draws %r a second time" % (cls.__name__, ex, draws), {"fn": fn, "draws": draws})
+        rec.count("outcomes-replayed")
         values.add(getattr(s, "value", None))
         if n <= 1:
             rec.sample({"fn": fn, "draws": draws, "value": s.value, "seq1": getattr(s, "seq1", None), "seq2": getattr(s, "seq2", None)})
